@@ -1018,9 +1018,23 @@ def canonical_loops(fn, notes, where):
 def _module_constants(tree):
     """module-level names bound exactly once, to a literal number / string / bytes, and never rebound anywhere in the module"""
     cand, stores = {}, {}
+    imported = set()
+    for st in tree.body:
+        if isinstance(st, ast.Import):
+            imported.update((a.asname or a.name).split(".")[0] for a in st.names)
+        elif isinstance(st, ast.ImportFrom):
+            imported.update(a.asname or a.name for a in st.names)
+
+    def const_path(e):
+        # an attribute of something imported (datetime.time.min, indexing.IndexingSupport.BASIC): the same object wherever it is read
+        while isinstance(e, ast.Attribute):
+            e = e.value
+        return isinstance(e, ast.Name) and e.id in imported
     for st in tree.body:
         if isinstance(st, ast.Assign) and len(st.targets) == 1 and isinstance(st.targets[0], ast.Name) and isinstance(st.value, ast.Constant) \
                 and isinstance(st.value.value, (int, float, str, bytes)) and not isinstance(st.value.value, bool):
+            cand[st.targets[0].id] = st.value
+        elif isinstance(st, ast.Assign) and len(st.targets) == 1 and isinstance(st.targets[0], ast.Name) and isinstance(st.value, ast.Attribute) and const_path(st.value):
             cand[st.targets[0].id] = st.value
     for n in ast.walk(tree):
         if isinstance(n, ast.Name) and isinstance(n.ctx, (ast.Store, ast.Del)):
@@ -1045,8 +1059,8 @@ def propagate_constants(mname, tree, fn, consts_by_module, notes, where):
     for st in tree.body:
         if isinstance(st, ast.ImportFrom) and st.module in consts_by_module and st.level == 0:
             for a in st.names:
-                if a.name in consts_by_module[st.module]:
-                    table.setdefault(a.asname or a.name, consts_by_module[st.module][a.name])
+                if a.name in consts_by_module[st.module] and isinstance(consts_by_module[st.module][a.name], ast.Constant):
+                    table.setdefault(a.asname or a.name, consts_by_module[st.module][a.name])  # (attribute paths are only read where their imports are)
     table = {k: v for k, v in table.items() if k not in local}
     if not table:
         return False
@@ -1056,12 +1070,39 @@ def propagate_constants(mname, tree, fn, consts_by_module, notes, where):
         def visit_Name(self, node):
             if isinstance(node.ctx, ast.Load) and node.id in table:
                 done.add(node.id)
-                return ast.copy_location(ast.Constant(value=table[node.id].value), node)
+                v = table[node.id]
+                return ast.copy_location(ast.Constant(value=v.value) if isinstance(v, ast.Constant) else _copy(v), node)
             return node
     T().visit(fn)
     if done:
         notes.append(f"{where}: module-level constant(s) {sorted(done)} read as their literals")
     return bool(done)
+
+
+def desugar_suppress(tree, notes, mname):
+    """`with contextlib.suppress(E1, ...): body`  is  `try: body / except (E1, ...): pass`  - written as the try statement,
+    so that every analysis of handlers (exception flow, guards, fallbacks) sees it"""
+    changed = False
+
+    class T(ast.NodeTransformer):
+        def visit_With(self, node):
+            nonlocal changed
+            self.generic_visit(node)
+            if len(node.items) != 1 or node.items[0].optional_vars is not None:
+                return node
+            c = node.items[0].context_expr
+            if not (isinstance(c, ast.Call) and not c.keywords and c.args and ((isinstance(c.func, ast.Attribute) and c.func.attr == "suppress" and isinstance(c.func.value, ast.Name) and c.func.value.id == "contextlib")
+                                                                               or (isinstance(c.func, ast.Name) and c.func.id == "suppress" and (_import_of(tree, "suppress") or (None, None, None))[1:] == ("contextlib", "suppress")))):
+                return node
+            typ = c.args[0] if len(c.args) == 1 else ast.Tuple(elts=list(c.args), ctx=ast.Load())
+            new = ast.Try(body=node.body, handlers=[ast.ExceptHandler(type=typ, name=None, body=[ast.Pass()])], orelse=[], finalbody=[])
+            ast.copy_location(new, node)
+            ast.fix_missing_locations(new)
+            changed = True
+            notes.append(f"{mname}: `with contextlib.suppress(...)` read as try / except ...: pass")
+            return new
+    T().visit(tree)
+    return changed
 
 
 def prenormalise(trees):
@@ -1071,6 +1112,9 @@ def prenormalise(trees):
     if ref is None:
         return set(), notes
     changed = set()
+    for mname, tree in trees.items():
+        if desugar_suppress(tree, notes, mname):
+            changed.add(mname)
     for mname, old, new in detect_renames(trees, ref):
         table = function_table(trees[mname])
         node = table[new][0]
